@@ -84,9 +84,21 @@ def check(q):
     return n, fails[:3]
 
 
+# constructs the enumerated token sequences do not reach: open ranges spelled with `*` (the only ones that are merged), negative
+# and quoted bounds, merges inside fields / groups, blanks around comparison operators, repeated operands
+CURATED = [
+    "[* TO 5] AND [1 TO *]", "[1 TO *] AND [* TO 5]", "[* TO 5] AND [-5 TO *]", "[-5 TO *] AND [* TO 5]", "{* TO 5} AND {1 TO *}",
+    "f:[* TO 5] AND f:[1 TO *]", "f:([* TO 5] AND [1 TO *])", "[* TO \"k l\"] AND [\"a b\" TO *]", "[* TO 5] AND x AND [1 TO *]",
+    "[* TO 5] AND [1 TO *] AND [* TO 9]", "[* TO 5]  AND  [-1 TO *]^2", ">1 AND <5", "> 1 AND < 5", ">=1 AND <=5 AND >3", "a AND >-1 AND <-5",
+    "f:(>1 AND <5)", ">\"a b\" AND <\"k l\"", "<5 AND [1 TO *]", "[* TO 5] AND >1", "x OR (>1 AND <5 AND y)", "> 1", "a < 5 b", "f:>= 1",
+    "a b a", "a a", "f:x y f:x", "\"x y\" z \"x y\"", "a~2 b a~2", "(a OR b) c (a OR b)", "a OR b OR a", "a AND b AND a", "f:(a b a)",
+    "NOT a NOT a", "+a -b +a", "a^2 b^2 a^2", "[1 TO 2] [1 TO 2]",
+]
+
+
 def main():
     p = read_payload()
-    qs = []
+    qs = list(CURATED)
     for i, seq in enumerate(gen.sequences(p["max_tokens"])):
         qs.append(gen.render(seq, i % 3, sep=" "))
         if i % 5 == 0:
@@ -95,7 +107,8 @@ def main():
     failures = [f for r in res for f in r[1]]
     rest, hit = classify(failures, p.get("known", []))
     emit({"ok": not rest, "evaluations": sum(r[0] for r in res), "distinct_nontrivial": len(qs),
-          "rule": "queries = accepted token sequences of <= %d tokens (single blanks; every 5th also with minimal blanks) x %d "
+          "rule": "queries = accepted token sequences of <= %d tokens (single blanks; every 5th also with minimal blanks) + the curated list "
+                  "(open ranges spelled with *, negative / quoted bounds, blanks after comparison operators, repeated operands) x %d "
                   "transformer configurations; meaning compared by truth table over atoms (term, field path, modifiers); distinct = queries"
                   % (p["max_tokens"], len(TRANSFORMERS)),
           "bound": "token sequences <= %d" % p["max_tokens"],
